@@ -230,7 +230,13 @@ func runRetry(sc *RetryScenario) *RetryResult {
 	waitQuiet := func() bool {
 		for time.Now().Before(deadline) {
 			if isQuiet() {
-				return true
+				// looked at twice, with a sleep in between: on a starved machine "no event for a while" may only mean that
+				// nothing in this process ran for a while -- timers that are due fire before the second look
+				time.Sleep(5 * time.Millisecond)
+				if isQuiet() {
+					return true
+				}
+				continue
 			}
 			if rec.Len() > maxEvents {
 				// a client that keeps reconnecting / retransmitting without end: no point in recording more
